@@ -823,7 +823,15 @@ class Domain(AbstractRuleMatching):
         return f"{url.raw_host}:{url.port}"
 
     async def match(self, request: Request) -> bool:
-        host = request.headers.get(hdrs.HOST)
+        url = request._message.url
+        if url.absolute and url.raw_host:
+            # absolute-form target: the Host header must be ignored
+            # https://www.rfc-editor.org/rfc/rfc9112#section-3.2.2-8
+            host: str | None = url.raw_host
+            if url.explicit_port is not None:
+                host = f"{host}:{url.explicit_port}"
+        else:
+            host = request.headers.get(hdrs.HOST)
         if not host:
             return False
         return self.match_domain(host)
